@@ -28,7 +28,7 @@ def bounds(tier):
 
 
 def items(tier):
-    specs = models.rate_specs()
+    specs = models.degenerate_specs() + models.rate_specs()
     e3 = models.e3_specs(tier, variants=True)
     if tier == "quick":
         nsh = {i: len(sh[0]) for i, sh in enumerate(models.e3_shapes(tier))}
